@@ -11,12 +11,18 @@ package main
 //	docAutoTagDefaults  : the `Default: <v>` remarks of docs/eng/http-generator.md for `uri-elements` and `no-tag-only`
 //	discardedTag / discardedNet : the constants `DiscardedShootTag` / `DiscardedShootCodeError` of netsample
 //
-// (the body of `DiscardedShootSample` and of `SetUserNet` are regenerated with the other normalised bodies: gsSlices)
+//	discardedShootSampleFacts : what `DiscardedShootSample` does, as a sorted set of facts — the keyed fields of the one
+//	                      `Sample{…}` literal it builds (`lit:<key>=<expr>`), the method calls on it (`call:<M>(<args>)`),
+//	                      whether it touches the sample pool (`pool:true|false`), whether it returns that sample
+//	                      (`returns:it`): no statement order, no local names
+//
+// (the body of `SetUserNet` is regenerated with the other normalised bodies: gsSlices)
 
 import (
 	"fmt"
 	"go/ast"
 	"go/parser"
+	"go/printer"
 	"go/token"
 	"os"
 	"path/filepath"
@@ -203,10 +209,13 @@ func grpcstatusR6(t *tr, b *strings.Builder) {
 	sort.Strings(docs)
 	fmt.Fprintf(b, "/-- docs/eng/http-generator.md: the `Default: …` remarks of the auto-tag keys -/\ndef docAutoTagDefaults : List (String × String) := [%s]\n\n", strings.Join(docs, ", "))
 
-	// ---- the discarded-shot constants
+	// ---- the discarded-shot constants and constructor
 	tag, code := "", ""
 	for _, f := range grpcstatusR6ParseDir(t, "core/aggregator/netsample") {
 		for _, d := range f.Decls {
+			if fd, ok := d.(*ast.FuncDecl); ok && fd.Recv == nil && fd.Name.Name == "DiscardedShootSample" && fd.Body != nil {
+				grpcstatusR6Discarded(t, b, fd)
+			}
 			gd, ok := d.(*ast.GenDecl)
 			if !ok || gd.Tok != token.CONST {
 				continue
@@ -236,4 +245,98 @@ func grpcstatusR6(t *tr, b *strings.Builder) {
 		tag, code = `""`, "0"
 	}
 	fmt.Fprintf(b, "/-- `netsample.DiscardedShootTag`, `netsample.DiscardedShootCodeError` -/\ndef discardedTag : String := %s\ndef discardedNet : Nat := %s\n\n", tag, code)
+}
+
+func grpcstatusR6Expr(e ast.Expr) string {
+	var sb strings.Builder
+	_ = printer.Fprint(&sb, token.NewFileSet(), e)
+	return strings.Join(strings.Fields(sb.String()), " ")
+}
+
+func grpcstatusR6Discarded(t *tr, b *strings.Builder, fd *ast.FuncDecl) {
+	var facts []string
+	var lits []*ast.CompositeLit
+	pool := false
+	ast.Inspect(fd.Body, func(n ast.Node) bool {
+		switch v := n.(type) {
+		case *ast.CompositeLit:
+			if id, ok := v.Type.(*ast.Ident); ok && id.Name == "Sample" {
+				lits = append(lits, v)
+			}
+		case *ast.Ident:
+			if v.Name == "samplePool" || v.Name == "Acquire" {
+				pool = true
+			}
+		}
+		return true
+	})
+	if len(lits) != 1 {
+		t.errs = append(t.errs, fmt.Sprintf("DiscardedShootSample: %d Sample literals", len(lits)))
+	}
+	// the variable the literal is bound to
+	holder := ""
+	for _, st := range fd.Body.List {
+		as, ok := st.(*ast.AssignStmt)
+		if !ok || len(as.Lhs) != 1 || len(as.Rhs) != 1 {
+			continue
+		}
+		r := as.Rhs[0]
+		if u, ok := r.(*ast.UnaryExpr); ok && u.Op == token.AND {
+			r = u.X
+		}
+		if cl, ok := r.(*ast.CompositeLit); ok && len(lits) == 1 && cl == lits[0] {
+			if id, ok := as.Lhs[0].(*ast.Ident); ok {
+				holder = id.Name
+			}
+		}
+	}
+	for _, cl := range lits {
+		for _, el := range cl.Elts {
+			kv, ok := el.(*ast.KeyValueExpr)
+			if !ok {
+				t.errs = append(t.errs, "DiscardedShootSample: Sample literal without keys")
+				continue
+			}
+			facts = append(facts, "lit:"+grpcstatusR6Expr(kv.Key)+"="+grpcstatusR6Expr(kv.Value))
+		}
+	}
+	ast.Inspect(fd.Body, func(n ast.Node) bool {
+		switch v := n.(type) {
+		case *ast.CallExpr:
+			if sel, ok := v.Fun.(*ast.SelectorExpr); ok {
+				if x, ok := sel.X.(*ast.Ident); ok && holder != "" && x.Name == holder {
+					var args []string
+					for _, a := range v.Args {
+						args = append(args, grpcstatusR6Expr(a))
+					}
+					facts = append(facts, "call:"+sel.Sel.Name+"("+strings.Join(args, ", ")+")")
+				}
+			}
+		case *ast.ReturnStmt:
+			if len(v.Results) == 1 {
+				if id, ok := v.Results[0].(*ast.Ident); ok && holder != "" && id.Name == holder {
+					facts = append(facts, "returns:it")
+				} else {
+					facts = append(facts, "returns:"+grpcstatusR6Expr(v.Results[0]))
+				}
+			}
+		case *ast.AssignStmt:
+			// a field of the sample written directly
+			for i, l := range v.Lhs {
+				if sel, ok := l.(*ast.SelectorExpr); ok {
+					if x, ok := sel.X.(*ast.Ident); ok && holder != "" && x.Name == holder && i < len(v.Rhs) {
+						facts = append(facts, "set:"+sel.Sel.Name+"="+grpcstatusR6Expr(v.Rhs[i]))
+					}
+				}
+			}
+		}
+		return true
+	})
+	facts = append(facts, fmt.Sprintf("pool:%v", pool))
+	sort.Strings(facts)
+	var q []string
+	for _, f := range facts {
+		q = append(q, fmt.Sprintf("%q", f))
+	}
+	fmt.Fprintf(b, "/-- `netsample.DiscardedShootSample`: the fields of the `Sample` literal it builds, the method calls on that sample, whether it\ntouches the sample pool, what it returns — as a sorted set -/\ndef discardedShootSampleFacts : List String := [%s]\n\n", strings.Join(q, ", "))
 }
